@@ -165,6 +165,11 @@ def body(ctx, case):
             stats["compared"] += 1
             if rx:
                 stats["masked"] += 1
+                if step == -1 and not label.endswith("rp_data"):
+                    # nothing in these designs is undefined at power-on except a memory read port that has not read
+                    # yet: a register that loses its initial value in translation must not hide behind the mask
+                    return Mismatch("rtlil-undefined-at-power-on", signal=label, rtlil_wire=list(p), simulator=got,
+                                    rtlil_undef_mask=rx)
             if (got ^ rv) & ~rx & ((1 << w) - 1):
                 return Mismatch("simulator-and-rtlil-disagree", step=step, event=evn, signal=label, rtlil_wire=list(p),
                                 simulator=got, rtlil=rv, rtlil_undef_mask=rx, wrappers=[n["wrappers"] for n in nodes])
@@ -297,6 +302,9 @@ def expr_body(ctx, case):
         if upd:
             ev.set_inputs(upd)
     rset({**{f"i{k}": 0 for k in range(len(sigs))}, "clk": 0, "rst": 0})
+    for name in ("o", "r", "narrow"):
+        if ("\\" + name,) in ev.wires and ev.get(("\\" + name,))[1]:
+            raise Mismatch("rtlil-undefined-at-power-on", signal=name, env=env, expr=e, rtlil_undef_mask=ev.get(("\\" + name,))[1])
     fail = []
     n = [0, 0]
 
